@@ -952,6 +952,20 @@ impl FixtureDatabase {
                 }
                 None
             }
+            Stmt::TryStar(try_stmt) => {
+                let handler_bodies = try_stmt.handlers.iter().map(|handler| {
+                    let rustpython_parser::ast::ExceptHandler::ExceptHandler(h) = handler;
+                    &h.body
+                });
+                std::iter::once(&try_stmt.body)
+                    .chain(handler_bodies)
+                    .chain([&try_stmt.orelse, &try_stmt.finalbody])
+                    .find_map(|body| self.find_yield_line(body, line_index))
+            }
+            Stmt::Match(match_stmt) => match_stmt
+                .cases
+                .iter()
+                .find_map(|case| self.find_yield_line(&case.body, line_index)),
             _ => None,
         }
     }
